@@ -11,7 +11,8 @@ call per method (unary / producer with a continuation / exchange), ``__describe_
 opens a sticky session; a recording client captures every request (path, body, headers) and whether it ran
 service code (= the request is *live*: it WOULD dispatch if authentication were skipped; state tokens and the
 session were minted for the anonymous identity, which is exactly what a skipped authentication yields).
-Phase 2 (switch = reject): every recorded request is replayed under every verb, plus every
+Phase 2 (switch = reject): every recorded request is replayed under every verb, every live client POST with each of
+12 steering-header sets (CORS preflight markers such as Access-Control-Request-Method, method / URL override headers), plus every
 name x route-suffix and every framework path x verb x Accept.  Phase 3 (switch = accept): the live requests are
 replayed once more as a positive control (they must still run service code, else the harness is vacuous).
 
@@ -52,8 +53,8 @@ RULE = (
     "configs = kind{unary,producer,exchange} x prefix{'',/vgi,/a/b (+/health,/v1.0 T)} x PKCE{off,on} x "
     "sticky{off,on} x health endpoint{on,off} x rejection{ValueError (+PermissionError, AuthFailure T)}; per config: "
     "every request the real client emits for 10 colliding method names (+__describe__, upload-URL, session "
-    "DELETE/resume) x verbs{GET,HEAD,POST,PUT,DELETE,OPTIONS,PATCH (+TRACE T)}, every name x "
-    "suffix{'',/init,/exchange,/,/x} x {POST,GET}, every framework/near-miss path x verbs x Accept{none,text/html (quick: text/html on GET/POST only)}; "
+    "DELETE/resume) x verbs{GET,HEAD,POST,PUT,DELETE,OPTIONS,PATCH (+TRACE T)}, every live client POST x 12 steering-header sets (CORS "
+    "preflight markers, method / URL override headers), every name x suffix{'',/init,/exchange,/,/x} x {POST,GET}, every framework/near-miss path x verbs x Accept{none,text/html (quick: text/html on GET/POST only)}; "
     "one evaluation = one HTTP request against the rejecting app; non-trivial = the authenticate callback ran "
     "and rejected it (class = kind, route class, verb, live?)"
 )
@@ -339,6 +340,21 @@ def requests_for(ctx: Ctx, cfg: dict[str, Any], recorded: list[dict[str, Any]], 
         seen.add(k)
         for v in verbs:
             yield {"verb": v, "path": r["path"], "body": r["body"], "headers": r["headers"], "live": r["live"] and v == "POST", "src": "client"}
+    # request headers that steer other layers (CORS preflight markers, method / URL override conventions of proxies and
+    # frameworks): none of them makes a request exempt, whatever it claims to be
+    steer = [
+        {"Access-Control-Request-Method": "POST"}, {"Access-Control-Request-Method": "POST", "Origin": "https://evil.example"},
+        {"Access-Control-Request-Headers": "authorization"}, {"Origin": "https://evil.example"}, {"X-HTTP-Method-Override": "OPTIONS"},
+        {"X-Method-Override": "OPTIONS"}, {"X-Original-URL": f"{P}/health"}, {"X-Rewrite-URL": f"{P}/health"}, {"X-Forwarded-Uri": "/.well-known/x"},
+        {"X-Forwarded-Prefix": "/.well-known"}, {"Sec-Fetch-Mode": "cors", "Sec-Fetch-Site": "same-origin"}, {"Purpose": "prefetch"},
+    ]
+    seen_live: set[Any] = set()
+    for r in recorded:
+        if r["verb"] != "POST" or not r["live"] or r["path"] in seen_live:
+            continue
+        seen_live.add(r["path"])
+        for extra in steer:
+            yield {"verb": "POST", "path": r["path"], "body": r["body"], "headers": {**r["headers"], **extra}, "live": True, "src": "client+hdr:" + ",".join(extra)}
     for n in NAMES + ["__describe__", "nosuch", "_oauth", "__upload_url__", "health.json", "healthcheck.init"]:
         for suf in ("", "/init", "/exchange", "/", "/x"):
             for v in ("POST", "GET"):
